@@ -1201,3 +1201,46 @@ def trim_fractional(rng, count):
         if rng.random() < 0.3:
             pos = [p - pos[0] for p in pos]
         yield f"TRIM unit={u} M={mapstr(rng.randrange(1, 99), pos[-1] + u * rng.randrange(1, 999) - (u - 1), 0, pos)}"
+
+
+def candidate_fractional(rng, count):
+    """the whole candidate construction (pairing, scoring, segments, chain, conflict resolution, row header, HitEnum) on
+    coordinates with one decimal: the line is in tenths, the real classes compute with exact fractions"""
+    u = 10
+    for _ in range(count):
+        P = rand_params(rng)
+        R = make_reference(rng, rng.randrange(15, 60), rng.choice([3000, 9000]), rng.choice([200, 500, 2000]))
+        Q, off, _ = make_query(rng, R)
+        R10 = sorted(set(p * u + rng.randrange(0, u) for p in R))
+        Q10 = sorted(set(q * u + rng.randrange(0, u) for q in Q))
+        Q10 = [q - Q10[0] for q in Q10]
+        rev = rng.randrange(2)
+        L = Q10[-1] // u + 1 + rng.choice([0, 0, 3])
+        if rev:
+            Q10 = sorted(u * (L - 1) - q for q in Q10 if u * (L - 1) - q >= 0)
+        peaks = [p * u + rng.randrange(0, u) for p in ladder(rng, off)]
+        Ps = {"sp": P["sp"] * u, "dp": P["dp"], "su": P["su"] * u, "md": P["md"] * u + rng.choice([0, 0, 3]), "ms": P["ms"] * u, "bs": P["bs"] * u}
+        mult = rng.choice(["1", "1", "1/2", "2", "0"])
+        rl = R10[-1] // u + 1 + rng.randrange(0, 3000)
+        yield (f"CANDIDATE unit={u} {pstr(Ps)} mult={mult} var={rng.choice([0, 0, 1])} it=1 rev={rev} "
+               f"peaks={','.join(map(str, peaks))} REF={mapstr(1, u * rl - (u - 1), 0, R10)} QRY={mapstr(7, u * L - (u - 1), 0, Q10)}")
+
+
+def seq_fractional(rng, count):
+    """vectorise / positionsToSequence on label coordinates with one decimal (line in tenths; labels a tenth before / on / after
+    a bin boundary, window starts and ends with decimals)"""
+    u = 10
+    for _ in range(count):
+        res = rng.choice([1, 50, 100, 140, 1400])
+        n = rng.randrange(0, 40)
+        pos = sorted(rng.randrange(0, 60 * res * u) for _ in range(n))
+        # labels right at bin boundaries (counted from the start chosen below) and a tenth off
+        start = rng.choice([0, -rng.randrange(1, 5 * res * u), rng.randrange(0, 3 * res * u)])
+        for _ in range(rng.randrange(0, 6)):
+            k = rng.randrange(0, 60)
+            pos.append(start + k * res * u + rng.choice([-1, 0, 1, res * u - 1]))
+        pos = sorted(p for p in pos if p >= 0)
+        stop = rng.choice(["none", 0, rng.randrange(0, 70 * res * u)])
+        op = rng.choice(["VEC", "SEQ"])
+        extra = f" blur={rng.choice([0, 1, 2, 4])}" if op == "SEQ" else ""
+        yield f"{op} unit={u} res={res * u}{extra} start={start} stop={stop} POS={','.join(map(str, pos))}"
